@@ -1,7 +1,7 @@
 (* C18 — Event publisher delivers each topic's events in order, then closes once.
-   Only statements; proofs are in GS.PublisherProofs. *)
+   Only statements; proofs are in GS.PublisherProofs and GS.PublisherHistory. *)
 From Coq Require Import List NArith Bool.
-From GS Require Import Base Publisher PublisherProofs.
+From GS Require Import Base Publisher PublisherTrace PublisherProofs PublisherHistory.
 Import ListNotations.
 Open Scope N_scope.
 
@@ -43,3 +43,48 @@ Example C18_monitor_rejects_late_delivery :
   monitor_C18 [1] [PSubscribe 1 1; PSubscribe 2 1; PClose 1; PUnsubscribe 1; PPublish 2 7]
     [ [[]]; [[]]; [[EClose 1]]; [[]]; [[ENext 2 7]] ] = false.
 Proof. vm_compute. reflexivity. Qed.
+
+(* The property in its own words, per subscription, for every history of calls (corollary of C18_holds).
+   For a subscriber s and a topic t, [exp_trace t s (false,false) ops] is computed from the calls alone by a
+   two-bit automaton (publisher shut down?, subscription (t,s) active?): a publish on t yields its event iff the
+   subscription is active and the publisher is not shut down; the call at which an active subscription ends
+   (close of t, unsubscribe of s, shutdown) yields one close; every other call yields nothing.
+   [seen_trace t (prun [s] pub_new ops)] is what the publisher model hands to s for t, call by call (the t-events
+   in delivery order, and the number of closes of t).  They are equal: s receives, in publication order, exactly
+   the events published on t after it subscribed and before the subscription ended, exactly one close per
+   subscription at the call that ends it, and nothing afterwards. *)
+Theorem C18_history : forall t s ops,
+  seen_trace t (prun [s] pub_new ops) = exp_trace t s (false, false) ops.
+Proof. exact c18_history. Qed.
+Print Assumptions C18_history.
+
+(* Aggregated over the whole history: the ordered list of t-events s ever received and the number of times it
+   was told that its subscription to t ended are those of the automaton. *)
+Theorem C18_history_totals : forall t s ops,
+  all_nexts t s ops = flat_map fst (exp_trace t s (false, false) ops) /\
+  all_closes t s ops = fold_right Nat.add 0%nat (map snd (exp_trace t s (false, false) ops)).
+Proof. exact c18_history_totals. Qed.
+Print Assumptions C18_history_totals.
+
+(* Once the publisher is shut down the automaton prescribes silence for ever, whatever is called. *)
+Theorem C18_silent_after_shutdown : forall t s ops b,
+  exp_trace t s (true, b) ops = map (fun _ => ([], 0%nat)) ops.
+Proof. exact exp_trace_dead. Qed.
+Print Assumptions C18_silent_after_shutdown.
+
+(* Non-vacuity: s=1 on topic 2 subscribes, hears 10 and 11, the topic closes (one close), 12 is not heard,
+   it re-subscribes, hears 13, unsubscribes (second close), shutdown adds nothing. *)
+Example C18_history_nonvacuous :
+  let ops := [PPublish 2 9; PSubscribe 2 1; PSubscribe 2 7; PPublish 2 10; PPublish 3 99; PPublish 2 11; PClose 2;
+              PPublish 2 12; PSubscribe 2 1; PPublish 2 13; PUnsubscribe 1; PShutdown; PPublish 2 14] in
+  exp_trace 2 1 (false, false) ops =
+    [([],O); ([],O); ([],O); ([10],O); ([],O); ([11],O); ([],S O); ([],O); ([],O); ([13],O); ([],S O); ([],O); ([],O)]
+  /\ all_nexts 2 1 ops = [10; 11; 13] /\ all_closes 2 1 ops = 2%nat.
+Proof. vm_compute. repeat split; reflexivity. Qed.
+
+(* The same for the i-th subscriber of any observed universe — the form the correspondence run evaluates on the
+   Go publisher's deliveries (check HIST18 = pcase_hist: every observed subscriber, every topic named in the calls). *)
+Theorem C18_history_univ : forall t univ i s ops, nth_error univ i = Some s ->
+  col_trace t i (prun univ pub_new ops) = exp_trace t s (false, false) ops.
+Proof. exact c18_history_univ. Qed.
+Print Assumptions C18_history_univ.
